@@ -1,5 +1,12 @@
--- driver for C17 (stub)
-def step (_line : String) : String := "bad-op"
+-- driver for C17 (Producer model): see GrcovModel/Drv/C17.lean for the protocol
+import GrcovModel.Drv.C17
+open Grcov.Drv.C17
+
+def step (line : String) : String :=
+  match line.trimAscii.toString.splitOn " " with
+  | "c17.run" :: args => handleRun args
+  | "c17.spec" :: args => handleSpec args
+  | _ => "bad-op"
 
 partial def loop (h : IO.FS.Stream) (out : IO.FS.Stream) : IO Unit := do
   let line ← h.getLine
